@@ -4,6 +4,7 @@ import (
 	"bytes"
 	"fmt"
 	"net"
+	"os"
 	"strings"
 	"sync"
 	"testing"
@@ -22,23 +23,36 @@ import (
 type Seg struct {
 	GapS  int `json:"gap_s"`
 	Burst int `json:"burst"`
+	// Refused: before the burst the application writes to a peer the server refuses
+	// (1 = an address the operator's PermissionHandler denies, 2 = an IPv6 peer on this IPv4
+	// allocation); the write may fail, the flows of the other peers must not suffer.
+	Refused int `json:"refused,omitempty"`
+	// HorizonMs != 0: after the gap, wait on until this many milliseconds after the instant
+	// at which the nonce the client holds turns one hour old (the harness reads the mint
+	// time off the wire), so that the burst is the first thing to meet the stale nonce.
+	HorizonMs int `json:"horizon_ms,omitempty"`
+	// PeerFirst: in this burst the peers talk before the client does (other port first).
+	PeerFirst bool `json:"peer_first,omitempty"`
 }
 
 // C14Case is a long-running client/server session; also the replay format.
 type C14Case struct {
-	LifetimeS    int    `json:"lifetime_s"`     // server AllocationLifetime (0 = default 600 s)
-	PermTimeoutS int    `json:"perm_timeout_s"` // server PermissionTimeout (0 = default 300 s)
-	ChanTimeoutS int    `json:"chan_timeout_s"` // server ChannelBindTimeout (0 = default 600 s)
-	PermRefreshS int    `json:"perm_refresh_s"` // client PermissionRefreshInterval (0 = default 120 s)
-	RTOms        int    `json:"rto_ms"`
-	NPeers       int    `json:"n_peers"`
-	Segs         []Seg  `json:"segments"`
-	FailRTs      []int  `json:"fail_round_trips"` // per STUN transaction: this many initial round trips fail (cycled)
-	DropResp     []bool `json:"drop_response"`    // whether the failing round trip loses the response (else the request)
-	DupCtl       bool   `json:"dup_control,omitempty"`
-	DelayCtlMs   int    `json:"delay_control_ms,omitempty"`
-	Cred         string `json:"cred,omitempty"` // "" static | ltc | rest (time-windowed credentials, C17 end-to-end)
-	CredDurS     int    `json:"cred_duration_s,omitempty"`
+	LifetimeS     int    `json:"lifetime_s"`     // server AllocationLifetime (0 = default 600 s)
+	PermTimeoutS  int    `json:"perm_timeout_s"` // server PermissionTimeout (0 = default 300 s)
+	ChanTimeoutS  int    `json:"chan_timeout_s"` // server ChannelBindTimeout (0 = default 600 s)
+	PermRefreshS  int    `json:"perm_refresh_s"` // client PermissionRefreshInterval (0 = default 120 s)
+	RTOms         int    `json:"rto_ms"`
+	NPeers        int    `json:"n_peers"`
+	Segs          []Seg  `json:"segments"`
+	FailRTs       []int  `json:"fail_round_trips"` // per STUN transaction: this many initial round trips fail (cycled)
+	DropResp      []bool `json:"drop_response"`    // whether the failing round trip loses the response (else the request)
+	DupCtl        bool   `json:"dup_control,omitempty"`
+	DelayCtlMs    int    `json:"delay_control_ms,omitempty"`
+	StartOffsetMs int    `json:"start_offset_ms,omitempty"` // the client allocates this long after a whole minute (phase of its refresh timers against the nonce clock)
+	JoinSeg       []int  `json:"join_segment,omitempty"`    // per peer (cycled): first segment in which the application talks to it
+	Sibling       bool   `json:"sibling,omitempty"`         // every peer host also sends from a second port the client never wrote to (admitted by the per-IP permission alone)
+	Cred          string `json:"cred,omitempty"`            // "" static | ltc | rest (time-windowed credentials, C17 end-to-end)
+	CredDurS      int    `json:"cred_duration_s,omitempty"`
 }
 
 type c14Result struct {
@@ -46,7 +60,14 @@ type c14Result struct {
 	probes    int
 	hours     float64
 	lossy     int
+	refused   int
+	atHorizon int
+	peerFirst int
+	// sibling-port probes after an idle gap longer than the default permission lifetime
+	siblingAfterIdle int
 }
+
+var c14DeniedIP = net.IPv4(10, 2, 0, 250)
 
 func runC14(t *testing.T, c *C14Case) (res c14Result) {
 	t.Helper()
@@ -72,7 +93,7 @@ func isSTUN(b []byte) bool {
 
 func runC14Inner(c *C14Case) (res c14Result) { //nolint:cyclop,gocyclo,maintidx
 	n := sim.NewNet()
-	logger := sim.NewLogger(200)
+	logger := sim.NewLogger(c14LogKeep())
 	tn := &sim.TNet{N: n}
 	srvSock, err := n.BindUDP("udp4", net.IPv4(10, 0, 0, 1), 3478)
 	if err != nil {
@@ -106,17 +127,23 @@ func runC14Inner(c *C14Case) (res c14Result) { //nolint:cyclop,gocyclo,maintidx
 		PacketConnConfigs: []turn.PacketConnConfig{{
 			PacketConn:            srvSock,
 			RelayAddressGenerator: &turn.RelayAddressGeneratorStatic{RelayAddress: net.IPv4(10, 9, 0, 1), Address: "10.9.0.1", Net: tn},
+			PermissionHandler:     func(_ net.Addr, peerIP net.IP) bool { return !peerIP.Equal(c14DeniedIP) },
 		}},
 	})
 	if err != nil {
 		return c14Result{kind: "harness", msg: err.Error()}
 	}
 	csock, _ := n.BindUDP("udp4", net.IPv4(10, 1, 0, 1), 5000)
-	var peers []*sim.UDPSock
+	var peers, siblings []*sim.UDPSock
 	for i := 0; i < max(c.NPeers, 1); i++ {
 		p, _ := n.BindUDP("udp4", net.IPv4(10, 2, 0, byte(i+1)), 7000)
 		peers = append(peers, p)
+		sb, _ := n.BindUDP("udp4", net.IPv4(10, 2, 0, byte(i+1)), 7001)
+		siblings = append(siblings, sb)
 	}
+	deniedPeer, _ := n.BindUDP("udp4", c14DeniedIP, 7000)
+	written := map[int]bool{}
+	joined := func(pi, si int) bool { return len(c.JoinSeg) == 0 || si >= c.JoinSeg[pi%len(c.JoinSeg)] }
 	// ---- fault script: the first k round trips of every STUN transaction fail
 	var fmu sync.Mutex
 	txSeen := map[[12]byte]int{} // request transmissions seen per transaction
@@ -124,6 +151,7 @@ func runC14Inner(c *C14Case) (res c14Result) { //nolint:cyclop,gocyclo,maintidx
 	txResp := map[[12]byte]bool{}
 	txCount := 0
 	lossy := 0
+	var nonceMint time.Time
 	n.Fault = func(d *sim.Datagram) sim.FaultAction {
 		if !isSTUN(d.Data) {
 			return sim.FaultAction{}
@@ -169,6 +197,11 @@ func runC14Inner(c *C14Case) (res c14Result) { //nolint:cyclop,gocyclo,maintidx
 
 				return act
 			}
+			if d.SrcSock == srvSock.ID && cls == ref.ClassError {
+				if m, perr := ref.Parse(d.Data); perr == nil && (m.ErrorCode() == 401 || m.ErrorCode() == 438) {
+					nonceMint = time.Now() // the challenge the client will use from now on
+				}
+			}
 		default:
 			return act
 		}
@@ -201,6 +234,7 @@ func runC14Inner(c *C14Case) (res c14Result) { //nolint:cyclop,gocyclo,maintidx
 		return c14Result{kind: "harness", msg: err.Error()}
 	}
 	credValid := c.Cred == "" || c.CredDurS >= 0
+	time.Sleep(time.Duration(c.StartOffsetMs) * time.Millisecond)
 	relay, err := cl.Allocate()
 	if !credValid {
 		teardown()
@@ -236,8 +270,8 @@ func runC14Inner(c *C14Case) (res c14Result) { //nolint:cyclop,gocyclo,maintidx
 		}
 	}()
 	relayAddr := relay.LocalAddr().(*net.UDPAddr) //nolint:forcetypeassert
-	fail := func(kind, f string, a ...any) c14Result {
-		r := c14Result{kind: kind, msg: fmt.Sprintf("at %v of protocol time: ", time.Since(start).Round(time.Millisecond)) + fmt.Sprintf(f, a...) + "\n  log tail:\n    " + strings.Join(tail(logger.Lines(), 14), "\n    ")}
+	fail := func(kind, f string, a ...any) *c14Result {
+		r := &c14Result{kind: kind, msg: fmt.Sprintf("at %v of protocol time: ", time.Since(start).Round(time.Millisecond)) + fmt.Sprintf(f, a...) + "\n  log tail:\n    " + strings.Join(tail(logger.Lines(), 14), "\n    ")}
 		_ = relay.Close()
 		teardown()
 		<-done
@@ -247,48 +281,115 @@ func runC14Inner(c *C14Case) (res c14Result) { //nolint:cyclop,gocyclo,maintidx
 	seq := 0
 	for si, sg := range c.Segs {
 		time.Sleep(time.Duration(sg.GapS)*time.Second + 1100*time.Microsecond)
+		if sg.HorizonMs != 0 {
+			fmu.Lock()
+			// the server's default nonces carry a minute count and turn stale when it is 61 behind
+			at := time.Unix((nonceMint.Unix()/60+61)*60, 0).Add(time.Duration(sg.HorizonMs)*time.Millisecond + 100*time.Microsecond)
+			fmu.Unlock()
+			if d := time.Until(at); d > 0 {
+				time.Sleep(d)
+				res.atHorizon++
+			}
+		}
+		switch sg.Refused {
+		case 1:
+			_, werr := relay.WriteTo([]byte("to a denied peer"), &net.UDPAddr{IP: c14DeniedIP, Port: 7000})
+			synctest.Wait()
+			if _, _, ok := deniedPeer.TryRead(); ok {
+				return *fail("denied-peer-reached", "a datagram reached the peer the operator denies (WriteTo returned %v)", werr)
+			}
+			res.refused++
+		case 2:
+			_, _ = relay.WriteTo([]byte("to an IPv6 peer"), &net.UDPAddr{IP: net.ParseIP("fd00:2::9"), Port: 7000})
+			synctest.Wait()
+			res.refused++
+		}
 		for b := 0; b < max(sg.Burst, 1); b++ {
 			for pi, p := range peers {
+				if !joined(pi, si) {
+					continue
+				}
 				seq++
 				pa := &net.UDPAddr{IP: p.Local().IP, Port: p.Local().Port}
-				// client -> peer
-				out := []byte(fmt.Sprintf("c2p seg=%d burst=%d peer=%d seq=%d", si, b, pi, seq))
-				if _, err := relay.WriteTo(out, pa); err != nil {
-					return fail("relayed-write-failed", "WriteTo(%v) on the relayed socket failed: %v", pa, err)
+				c2p := func() *c14Result {
+					out := []byte(fmt.Sprintf("c2p seg=%d burst=%d peer=%d seq=%d", si, b, pi, seq))
+					if _, err := relay.WriteTo(out, pa); err != nil {
+						return fail("relayed-write-failed", "WriteTo(%v) on the relayed socket failed: %v", pa, err)
+					}
+					synctest.Wait()
+					data, from, ok := p.TryRead()
+					if !ok {
+						return fail("client-to-peer-lost", "probe %q to peer %v did not arrive (AllocationCount=%d)", out, pa, srv.AllocationCount())
+					}
+					if !bytes.Equal(data, out) || !from.IP.Equal(relayAddr.IP) || from.Port != relayAddr.Port {
+						return fail("client-to-peer-altered", "peer %v received %q from %v, expected %q from %v", pa, data, from, out, relayAddr)
+					}
+					if _, _, more := p.TryRead(); more {
+						return fail("client-to-peer-duplicated", "peer %v received the probe more than once", pa)
+					}
+					written[pi] = true
+					res.probes++
+
+					return nil
 				}
-				synctest.Wait()
-				data, from, ok := p.TryRead()
-				if !ok {
-					return fail("client-to-peer-lost", "probe %q to peer %v did not arrive (AllocationCount=%d)", out, pa, srv.AllocationCount())
+				// toClient sends one datagram from a socket of the peer host towards the relayed address
+				toClient := func(src *sim.UDPSock, tag, lost string) *c14Result {
+					sa := &net.UDPAddr{IP: src.Local().IP, Port: src.Local().Port}
+					in := []byte(fmt.Sprintf("%s seg=%d burst=%d peer=%d seq=%d", tag, si, b, pi, seq))
+					rmu.Lock()
+					got = got[:0]
+					rmu.Unlock()
+					_, _ = src.WriteTo(in, relayAddr)
+					synctest.Wait()
+					rmu.Lock()
+					g := append([]rx{}, got...)
+					rmu.Unlock()
+					if len(g) != 1 {
+						return fail(lost, "probe %q from %v (the client has written to peer %v): ReadFrom returned %d datagrams (AllocationCount=%d)", in, sa, pa, len(g), srv.AllocationCount())
+					}
+					if !bytes.Equal(g[0].payload, in) || g[0].from != sa.String() {
+						return fail("peer-to-client-altered", "ReadFrom returned %q from %s, expected %q from %v", g[0].payload, g[0].from, in, sa)
+					}
+					res.probes++
+
+					return nil
 				}
-				if !bytes.Equal(data, out) || !from.IP.Equal(relayAddr.IP) || from.Port != relayAddr.Port {
-					return fail("client-to-peer-altered", "peer %v received %q from %v, expected %q from %v", pa, data, from, out, relayAddr)
+				p2c := func() *c14Result { return toClient(p, "p2c", "peer-to-client-lost") }
+				// the peer host's other port: never written to, admitted by the permission for its IP
+				s2c := func() *c14Result {
+					if !c.Sibling {
+						return nil
+					}
+					if si > 0 && sg.GapS > 300 {
+						res.siblingAfterIdle++
+					}
+
+					return toClient(siblings[pi], "s2c", "permitted-host-to-client-lost")
 				}
-				if _, _, more := p.TryRead(); more {
-					return fail("client-to-peer-duplicated", "peer %v received the probe more than once", pa)
+				order := []func() *c14Result{c2p, p2c, s2c}
+				if sg.PeerFirst && written[pi] {
+					order = []func() *c14Result{s2c, p2c, c2p}
+					res.peerFirst++
 				}
-				// peer -> client
-				in := []byte(fmt.Sprintf("p2c seg=%d burst=%d peer=%d seq=%d", si, b, pi, seq))
-				rmu.Lock()
-				got = got[:0]
-				rmu.Unlock()
-				_, _ = p.WriteTo(in, relayAddr)
-				synctest.Wait()
-				rmu.Lock()
-				g := append([]rx{}, got...)
-				rmu.Unlock()
-				if len(g) != 1 {
-					return fail("peer-to-client-lost", "probe %q from peer %v: ReadFrom returned %d datagrams (AllocationCount=%d)", in, pa, len(g), srv.AllocationCount())
+				for _, f := range order {
+					if r := f(); r != nil {
+						return *r
+					}
 				}
-				if !bytes.Equal(g[0].payload, in) || g[0].from != pa.String() {
-					return fail("peer-to-client-altered", "ReadFrom returned %q from %s, expected %q from %v", g[0].payload, g[0].from, in, pa)
-				}
-				res.probes += 2
 			}
 		}
 		if cnt := srv.AllocationCount(); cnt != 1 {
-			return fail("allocation-count", "AllocationCount() = %d while the relayed socket is open", cnt)
+			return *fail("allocation-count", "AllocationCount() = %d while the relayed socket is open", cnt)
 		}
+	}
+	if pat := os.Getenv("VERIF_C14_LOG"); pat != "" { // debugging aid: grep the library log into a file
+		var sb strings.Builder
+		for _, l := range logger.Lines() {
+			if strings.Contains(l, pat) {
+				sb.WriteString(l + "\n")
+			}
+		}
+		_ = os.WriteFile(os.Getenv("VERIF_C14_LOGFILE"), []byte(sb.String()), 0o600)
 	}
 	res.hours = time.Since(start).Hours()
 	fmu.Lock()
@@ -297,7 +398,7 @@ func runC14Inner(c *C14Case) (res c14Result) { //nolint:cyclop,gocyclo,maintidx
 	// Close releases the allocation at once
 	wireAtClose := n.WireLen()
 	if err := relay.Close(); err != nil {
-		return fail("close-error", "Close of the relayed socket failed: %v", err)
+		return *fail("close-error", "Close of the relayed socket failed: %v", err)
 	}
 	// the Refresh(0) may need retransmissions under the loss plan: allow one full schedule
 	time.Sleep(8 * time.Second)
@@ -364,8 +465,54 @@ func genC14(rt *rapid.T, maxHours int) *C14Case {
 			rapid.SampledFrom([]int{29, 30, 31, 59, 60, 119, 120, 121, 299, 300, 301, 599, 600, 601}),
 			rapid.IntRange(600, 7200),
 		).Draw(rt, "gap")
-		c.Segs = append(c.Segs, Seg{GapS: gap, Burst: rapid.SampledFrom([]int{1, 1, 1, 2, 5}).Draw(rt, "burst")})
+		sg := Seg{GapS: gap, Burst: rapid.SampledFrom([]int{1, 1, 1, 2, 5}).Draw(rt, "burst")}
+		if rapid.IntRange(0, 9).Draw(rt, "refusedSeg") == 0 {
+			sg.Refused = rapid.IntRange(1, 2).Draw(rt, "refusedKind")
+		}
+		c.Segs = append(c.Segs, sg)
 		total += gap
+	}
+	for i := range c.Segs {
+		if i > 0 && rapid.IntRange(0, 5).Draw(rt, "peerFirst") == 0 {
+			c.Segs[i].PeerFirst = true
+		}
+	}
+	c.Sibling = rapid.IntRange(0, 2).Draw(rt, "sibling") > 0
+	if rapid.IntRange(0, 2).Draw(rt, "lateJoiners") == 0 {
+		// some peers are first written to late in the session (e.g. beyond the nonce horizon)
+		for i := 0; i < c.NPeers; i++ {
+			c.JoinSeg = append(c.JoinSeg, rapid.OneOf(rapid.Just(0), rapid.IntRange(0, len(c.Segs)-1)).Draw(rt, "join"))
+		}
+		c.JoinSeg[rapid.IntRange(0, c.NPeers-1).Draw(rt, "joinFirst")] = 0
+	}
+	if rapid.IntRange(0, 1).Draw(rt, "phase") == 0 {
+		c.StartOffsetMs = rapid.OneOf(rapid.IntRange(0, 119999), rapid.SampledFrom([]int{1, 999, 30000, 59999, 60001})).Draw(rt, "startOffset")
+	}
+	if rapid.IntRange(0, 2).Draw(rt, "horizonFragment") == 0 {
+		// the first activity after the nonce turns stale is a write (often to a peer that joins
+		// right then); afterwards an idle period, then the peers speak first
+		total := 0
+		for i := range c.Segs {
+			total += c.Segs[i].GapS
+			if total < 3500 || i+1 >= len(c.Segs) {
+				continue
+			}
+			if over := total - 3590; over > 0 && c.Segs[i].GapS > over {
+				c.Segs[i].GapS -= over // stop short of the horizon, HorizonMs does the rest
+			}
+			c.Segs[i].HorizonMs = rapid.SampledFrom([]int{1, 1, 5, 50, 500, 5000, -1}).Draw(rt, "horizonMs")
+			if c.NPeers > 1 && rapid.Bool().Draw(rt, "joinAtHorizon") {
+				for len(c.JoinSeg) < c.NPeers {
+					c.JoinSeg = append(c.JoinSeg, 0)
+				}
+				c.JoinSeg[c.NPeers-1] = i
+			}
+			c.Segs[i+1].GapS = rapid.SampledFrom([]int{200, 301, 310, 330, 400, 599}).Draw(rt, "afterHorizonGap")
+			c.Segs[i+1].PeerFirst = true
+			c.Sibling = true
+
+			break
+		}
 	}
 	nf := rapid.IntRange(1, 7).Draw(rt, "nfail")
 	for i := 0; i < nf; i++ {
@@ -413,6 +560,21 @@ func TestC14(t *testing.T) {
 		}
 		if c.Cred != "" {
 			r.Label("time-windowed-credential:" + c.Cred)
+		}
+		if res.refused > 0 {
+			r.Label("write-to-refused-peer")
+		}
+		if res.siblingAfterIdle > 0 {
+			r.Label("permission-only-flow-after-idle")
+		}
+		if len(c.JoinSeg) > 0 {
+			r.Label("late-joining-peers")
+		}
+		if res.atHorizon > 0 {
+			r.Label("burst-right-at-nonce-horizon")
+		}
+		if res.peerFirst > 0 {
+			r.Label("peers-speak-first")
 		}
 		if c14NonTrivial(c, res) {
 			r.NonTrivial(vkit.Hash64(c))
@@ -472,4 +634,12 @@ func TestC14(t *testing.T) {
 			rt.Fatalf("C14 %s", kind)
 		}
 	})
+}
+
+func c14LogKeep() int {
+	if os.Getenv("VERIF_C14_LOG") != "" {
+		return 200000
+	}
+
+	return 200
 }
